@@ -155,6 +155,16 @@ add("C14",
     "order and identical corners; is_aligned is compared with the constructed truth in both argument orders.",
     "scales 1e-9..1, bounded coordinates (absolute 1e-12 alignment tolerance); defects are at least 5% of a cell.")
 
+add("C15",
+    "Hypothesis-generated vector fields over 156 decades of length with exact zeros; per-cell length/direction "
+    "reference; read-write-read sequences on field.array",
+    "Generated-input search over nvdim x mesh x magnitudes 1e-6..1e150 x zero patterns x norm specification kinds x "
+    "constructor/setter; after setting the norm every previously non-zero cell must have the target length (rtol 1e-12) "
+    "and the same direction, zero cells stay exactly zero; norm getter metadata, orientation unit length / zero, "
+    "orientation*norm = field; a later value update (also an in-place write after the norm was read) must not be "
+    "affected by an earlier norm.",
+    "lengths keep a decade from the 1e-8 threshold; numpy.linalg.norm as length reference.")
+
 PENDING = {}
 
 
